@@ -261,15 +261,13 @@ Fixpoint dq_needs (imp : list (N * path)) (e : expr) : list (path * N) :=
   end.
 
 (* annotations.names, restricted to undotted qualified names (the only ones a TypeVar name can
-   equal): names of the stub's own definitions, plus string slice elements (leave_Index) *)
-Definition str_elts (args : list expr) : list N :=
-  flat_map (fun a => match a with EStr n => [n] | _ => [] end) args.
+   equal): names of the stub's own definitions.  (leave_Index also adds string slice elements, but
+   _get_string_value keeps the opening quote -- "'a" for 'a' -- so no identifier ever equals them.) *)
 Fixpoint dq_names (imp : list (N * path)) (e : expr) : list N :=
   match e with
   | EName n => match dict_get N.eqb n imp with Some _ => [] | None => [n] end
   | EAttr _ _ => []
-  | ESub h args =>
-      dq_names imp h ++ (if is_type_head h then [] else flat_map (dq_names imp) args ++ str_elts args)
+  | ESub h args => dq_names imp h ++ (if is_type_head h then [] else flat_map (dq_names imp) args)
   | EStr _ => []
   | EOther _ subs => flat_map (dq_names imp) subs
   end.
